@@ -98,6 +98,7 @@ type c03Universe struct {
 	pods       []c03PodDef
 	syncLeaves []int
 	late       []int // quotas that are NOT delivered at the start: an event delivers them later (pods that name them are parked in the default quota group until then)
+	move       [][2]int // {quota, alternative parent}: the alphabet re-parents the quota between its defined parent and the alternative one
 	flipLend   []int // quotas whose allow-lent-resource label the alphabet toggles: a meta change without a parent change, i.e. a reset of the whole quota tree
 	node1      c03Vec
 	node2      c03Vec
@@ -232,6 +233,29 @@ var c03Reset = &c03Universe{
 	node2:      c03V(4, 4),
 }
 
+// c03Move: the leaf c03-a is re-parented between c03-p and c03-q (both keep the webhook's rules satisfied: same max keys,
+// a's min fits under either parent's min). Its pods - also pending non-preemptible ones - move with it; every figure the
+// admission rule reads (used, non-preemptible used, the ancestors' used) must afterwards be what the pods really hold
+// (seed C03-7: non-preemptible used re-added from the non-preemptible REQUEST).
+var c03Move = &c03Universe{
+	name: "move",
+	desc: "root->{c03-p->c03-a, c03-q}; c03-a is re-parented between c03-p and c03-q by the alphabet",
+	quotas: []c03QuotaDef{
+		{name: "c03-p", parent: -1, isParent: true, lend: true, maxLevels: []c03Vec{c03V(6, 6)}, minLevels: []c03Vec{c03V(3, 3)}},
+		{name: "c03-q", parent: -1, isParent: true, lend: true, maxLevels: []c03Vec{c03V(3, 3)}, minLevels: []c03Vec{c03V(3, 3)}},
+		{name: "c03-a", parent: 0, lend: true, maxLevels: []c03Vec{c03V(4, 4)}, minLevels: []c03Vec{c03V(3, 3)}},
+	},
+	pods: []c03PodDef{
+		{name: "a1", quota: 2, req: c03V(2, 1), nonPreemptible: true},
+		{name: "a2", quota: 2, req: c03V(2, 1), nonPreemptible: true},
+		{name: "a3", quota: 2, req: c03V(1, 1)},
+	},
+	syncLeaves: []int{2},
+	move:       [][2]int{{2, 1}},
+	node1:      c03V(8, 8),
+	node2:      c03V(4, 4),
+}
+
 // c03Late: the quota c03-l arrives late. Pods that name it are created - and may be admitted and reserved, against the
 // default quota group - before it exists; when it arrives, the plugin's periodic migration moves them into it, and from
 // then on they count against ITS limit like any other pod of the quota (seeds C01-3 / C19-2 / C03-6: a migrated
@@ -271,6 +295,7 @@ const (
 	c03OpSync
 	c03OpFlipLend
 	c03OpQuotaArrives
+	c03OpMove
 )
 
 type c03Op struct {
@@ -320,6 +345,9 @@ func c03BuildOps(cfg *c03Cfg) {
 		}
 	}
 	cfg.ops = append(cfg.ops, c03Op{c03OpNodeAdd, 0, "addNode(n2)"}, c03Op{c03OpNodeDel, 0, "removeNode(n2)"})
+	for i, mv := range u.move {
+		cfg.ops = append(cfg.ops, c03Op{c03OpMove, i, "reparent(" + u.quotas[mv[0]].name + ": " + u.quotas[u.quotas[mv[0]].parent].name + "<->" + u.quotas[mv[1]].name + ")"})
+	}
 	for _, q := range u.late {
 		cfg.ops = append(cfg.ops, c03Op{c03OpQuotaArrives, q, "quotaArrives+migration(" + u.quotas[q].name + ")"})
 	}
@@ -359,6 +387,7 @@ type c03Sys struct {
 	lowered []bool // max of the quota was lowered at least once on this path
 	flipped []bool // allow-lent-resource currently differs from the universe's definition
 	absent  []bool // the quota has not been delivered yet (universe.late)
+	par     []int  // current parent of every quota (universe.move re-parents)
 	hasN2   bool
 
 	hist []uint8
@@ -450,6 +479,10 @@ func (s *c03Sys) build() {
 	for _, q := range u.late {
 		s.absent[q] = true
 	}
+	s.par = make([]int, nq)
+	for q := range u.quotas {
+		s.par[q] = u.quotas[q].parent
+	}
 	s.quotaObjs = make([]*c03sched.ElasticQuota, nq)
 	// initial environment: node n1 exists, the quotas are delivered parents first
 	s.pl.OnNodeAdd(c03MakeNode("n1", u.node1))
@@ -479,7 +512,7 @@ func (s *c03Sys) refUsed(q int, onlyNonPreemptible bool) c03Vec {
 	var used c03Vec
 	for pi := 0; pi < s.cfg.nPods; pi++ {
 		d := s.cfg.u.pods[pi]
-		if s.podSt[pi] != c03Reserved || !s.cfg.u.inSubtree(d.quota, q) || (onlyNonPreemptible && !d.nonPreemptible) {
+		if s.podSt[pi] != c03Reserved || !s.inSubtree(d.quota, q) || (onlyNonPreemptible && !d.nonPreemptible) {
 			continue
 		}
 		for k := 0; k < c03ND; k++ {
@@ -489,9 +522,22 @@ func (s *c03Sys) refUsed(q int, onlyNonPreemptible bool) c03Vec {
 	return used
 }
 
+// inSubtree tells whether quota leaf is q or currently a descendant of q.
+func (s *c03Sys) inSubtree(leaf, q int) bool {
+	for x := leaf; x >= 0; x = s.par[x] {
+		if x == q {
+			return true
+		}
+	}
+	return false
+}
+
 func (s *c03Sys) updateQuota(q int) {
 	old := s.quotaObjs[q]
 	nu := c03MakeQuota(s.cfg.u, q, s.max(q), s.min(q))
+	if s.par[q] != s.cfg.u.quotas[q].parent {
+		nu.Labels[extension.LabelQuotaParent] = s.cfg.u.quotas[s.par[q]].name
+	}
 	if s.flipped[q] {
 		if s.cfg.u.quotas[q].lend {
 			nu.Labels[extension.LabelAllowLentResource] = "false"
@@ -590,6 +636,25 @@ func (s *c03Sys) applyReal(op int, check bool) (bool, []mc.Violation) {
 	case c03OpFlipLend:
 		s.flipped[o.arg] = !s.flipped[o.arg]
 		s.updateQuota(o.arg)
+	case c03OpMove:
+		mv := s.cfg.u.move[o.arg]
+		q := mv[0]
+		if s.par[q] == s.cfg.u.quotas[q].parent {
+			s.par[q] = mv[1]
+		} else {
+			s.par[q] = s.cfg.u.quotas[q].parent
+		}
+		s.updateQuota(q)
+		// pods admitted under the old parent were admitted against ITS limits: a new ancestor that is over its max right
+		// after the move is exempt from the used<=max invariant, like a quota whose max was lowered
+		for x := s.par[q]; x >= 0; x = s.par[x] {
+			ref, max := s.refUsed(x, false), s.max(x)
+			for k := 0; k < c03ND; k++ {
+				if ref[k] > max[k] {
+					s.lowered[x] = true
+				}
+			}
+		}
 	case c03OpQuotaArrives:
 		if !s.absent[o.arg] {
 			return false, nil
@@ -763,7 +828,7 @@ func c03Read(rl corev1.ResourceList, d int) (int64, bool) {
 func (s *c03Sys) checkedQuotas(leaf int) []int {
 	qs := []int{leaf}
 	if s.cfg.checkParent {
-		for x := s.cfg.u.quotas[leaf].parent; x >= 0; x = s.cfg.u.quotas[x].parent {
+		for x := s.par[leaf]; x >= 0; x = s.par[x] {
 			qs = append(qs, x)
 		}
 	}
@@ -1097,7 +1162,7 @@ func (s *c03Sys) Key() string {
 	s.cfg.memo.put(s.hist, s.ledger())
 	var sb strings.Builder
 	// harness side: everything the oracle's future verdicts depend on
-	fmt.Fprintf(&sb, "pods%v max%v min%v lowered%v flipped%v absent%v n2:%v|", s.podSt, s.maxLvl, s.minLvl, s.lowered, s.flipped, s.absent, s.hasN2)
+	fmt.Fprintf(&sb, "pods%v max%v min%v lowered%v flipped%v absent%v par%v n2:%v|", s.podSt, s.maxLvl, s.minLvl, s.lowered, s.flipped, s.absent, s.par, s.hasN2)
 	sb.WriteString(c03StaleFlags(s.mgr))
 	sb.WriteString("|")
 	sb.WriteString(c03Dumper.Dump(s.mgr))
@@ -1183,6 +1248,10 @@ func c03Plan(env *mc.Env) []*c03Cfg {
 		add(c03NewCfg("late", c03Late, rt, false, false, 4, d0+1, 1), d1+1)
 	}
 	for _, cp := range []bool{false, true} {
+		add(c03NewCfg("move", c03Move, false, cp, false, 3, d0+1, 1), d1+1)
+	}
+	add(c03NewCfg("move", c03Move, true, true, false, 3, d0+1, 1), d1+1)
+	for _, cp := range []bool{false, true} {
 		add(c03NewCfg("hist", c03Tree, false, cp, false, env.Pick(6, 7), d0, 5), d1)
 	}
 	if env.Thorough() {
@@ -1253,7 +1322,7 @@ func c03Assumptions(cfg *c03Cfg) []string {
 	return []string{
 		"quota universe " + cfg.u.name + ": " + cfg.u.desc + "; every quota declares exactly cpu and memory in max and min (the webhook forces parent and children to declare the same max keys); every (max,min) level reachable by the alphabet satisfies the webhook rules",
 		"pods always carry the quota-name label; a pod is created (informer add, pending) before it is attempted, attempted only while pending, unreserved only while reserved (framework order); PreFilter and Reserve of one scheduling cycle are not separated by other events; a deleted pod name may be created again (new incarnation)",
-		"plugin arguments are the package defaults (min-quota scaling on, no hook plugins) except the two switches; bind / pod update events, quota deletion and re-parenting and multi quota trees are not part of the alphabet; a quota tree reset only in the parts of universe reset (allow-lent-resource toggled)",
+		"plugin arguments are the package defaults (min-quota scaling on, no hook plugins) except the two switches; bind / pod update events, quota deletion and multi quota trees are not part of the alphabet; re-parenting only in the parts of universe move; a quota tree reset only in the parts of universe reset (allow-lent-resource toggled)",
 		"with runtime quota on, 'the current limit' is the value RefreshRuntime publishes on a shadow replay of the same history (its numeric correctness is property C02)",
 		"counters are incremented once per judged execution (BFS repeats and violation confirmations re-execute and count again)",
 	}
